@@ -58,6 +58,7 @@ class _Mon:
         self.snap_phase = {}
         self.fix_calls = []
         self.fix_phases = []
+        self.update_log = []
         self.prov = {}
         self.known_ids = None
         self.keep = []
@@ -459,6 +460,8 @@ def _wrap_update(orig):
                     lines.append(v.get_line_number())
                 ev["reported"] = (ev["reported"] or []) + lines
                 ev["updates"] += 1
+                if lines:
+                    MON.update_log.append((ev["rule"], lines))
                 if "C18" in MON.props and len(lUpdates) > 1:
                     spans = sorted((v.oTokens.iStartIndex, v.oTokens.iEndIndex) for v in lUpdates)
                     for (s1, e1), (s2, e2) in zip(spans, spans[1:]):
@@ -592,6 +595,7 @@ def run(text, style=None, conf=None, props=ALL_PROPS, fix_phase=7, max_passes=5,
     obs["c07_checked"] = MON.c07_checked
     obs["allow_fired"] = MON.allow_fired
     obs["fix_phases"] = list(MON.fix_phases)
+    obs["update_log"] = list(MON.update_log)
     obs["phase_start_lines"] = dict(MON.phase_start_lines)
     obs["rule_list"] = rl
     obs["file"] = f
